@@ -35,12 +35,21 @@ def host(run, S, behaviour):
         if behaviour == "returns-error":
             S.result = VObj(ev.CELEvalError, {"args": VTuple([VStr(str, "host says no")])}, label="host-error")
             return S.result
-        exc = {"raises-ValueError": ValueError, "raises-TypeError": TypeError}[behaviour]
+        exc = {"raises-ValueError": ValueError, "raises-TypeError": TypeError,
+               "raises-ValueError-subclass": HostValueError, "raises-TypeError-subclass": HostTypeError}[behaviour]
         raise se.PyRaise(VObj(exc, {"args": VTuple([VStr(str, "bad argument")])}))
     return VModel(f, "host_function")
 
 
-BEHAVIOURS = ["value", "returns-error", "raises-ValueError", "raises-TypeError"]
+class HostValueError(ValueError):
+    """a host library's own error class (like json.JSONDecodeError or UnicodeDecodeError: a ValueError)"""
+
+
+class HostTypeError(TypeError):
+    pass
+
+
+BEHAVIOURS = ["value", "returns-error", "raises-ValueError", "raises-TypeError", "raises-ValueError-subclass", "raises-TypeError-subclass"]
 
 
 def tok(name):
@@ -284,6 +293,42 @@ def bounded(rep, tier, seed, known):
         if len(log) != 4:
             fails.append({"id": f"call-count-macro|{runner.__name__}", "runner": runner.__name__, "cel": "[7, 7, 7].map(x, counted(x)).size() == 3 && counted(7) == 70",
                           "observed": f"{len(log)} calls", "expected": "4 calls (one per call site reached, per iteration)"})
+    # functions and variables are different name spaces: a variable (context, declared or macro variable) named like a host
+    # function does not hide it; a host function raising a SUBCLASS of ValueError / TypeError is an evaluation error
+    def discount(x):
+        return ct.IntType(int(x) - 2)
+
+    def parse_json(x):
+        import json as _json
+        return _json.loads(str(x))          # json.JSONDecodeError is a ValueError
+
+    def picky(x):
+        raise HostTypeError("wrong kind of argument")
+    for runner in (celpy.InterpretedRunner, celpy.CompiledRunner):
+        for style in ("list", "dict"):
+            celpy.CELParser.CEL_PARSER = None
+            env = celpy.Environment(runner_class=runner)
+            env_decl = celpy.Environment(annotations={"discount": ct.IntType}, runner_class=runner)
+            fns = [discount, parse_json, picky] if style == "list" else {"discount": discount, "parse_json": parse_json, "picky": picky}
+            for e_, text, bindings, want, label in (
+                    (env, "discount(price) + discount", {"price": ct.IntType(12), "discount": ct.IntType(1)}, 11, "variable-named-like-function"),
+                    (env, "price.discount() + discount", {"price": ct.IntType(12), "discount": ct.IntType(1)}, 11, "variable-named-like-function"),
+                    (env, "[10, 20].map(discount, discount(discount))", {}, [8, 18], "variable-named-like-function"),
+                    (env_decl, "discount(12)", {}, 10, "variable-named-like-function"),
+                    (env, "parse_json('{') == 1 || true", {}, True, "raises-subclass"),
+                    (env, "'{'.parse_json() == 1 || true", {}, True, "raises-subclass"),
+                    (env, "picky(1) == 1 || true", {}, True, "raises-subclass"),
+                    (env, "[1].exists(x, picky(x) == 1 || true)", {}, True, "raises-subclass")):
+                n += 1
+                try:
+                    got = e_.program(e_.compile(text), functions=fns).evaluate(dict(bindings))
+                    ok = got == want
+                except Exception as ex:
+                    got, ok = f"{type(ex).__name__}: {str(ex)[:100]}", False
+                if not ok:
+                    fails.append({"id": f"{label}|{runner.__name__}|{style}|{text}", "runner": runner.__name__, "supplied_as": style, "cel": text,
+                                  "observed": repr(got), "expected": want, "label": label})
+
     # only the selected branch of ?: is reached; an argument that is an error is the outcome and the function is not invoked
     def errfn(x):
         return ev.CELEvalError("host says no")
